@@ -77,7 +77,8 @@ def _build_one(root, ent, i, later):
             with open(rp, 'wb') as f:
                 f.write(data)
             os.chmod(rp, ent[3] if len(ent) > 3 else 0o644)
-            os.utime(rp, (MT0 + i, MT0 + i))
+            mt = MT0 + (ent[4] if len(ent) > 4 else i)              # ['f', path, data, mode, mtime offset]: two files of one age
+            os.utime(rp, (mt, mt))
         elif kind == 'l':
             os.makedirs(os.path.dirname(rp), exist_ok=True)
             if os.path.lexists(rp):
@@ -144,6 +145,10 @@ def subtree(snap, path):
 # the shim (child side)
 class Crash(BaseException):
     pass
+
+
+class _KbdAtPrompt(KeyboardInterrupt):
+    """the user types ^C at a prompt (step option interrupt_input = n): an answer of the prompt, not a kill of the process"""
 
 
 class Looping(BaseException):
@@ -290,6 +295,9 @@ class Shim:
             return r
         except OSError as e:
             rec[2] = ['err', 'ShutilError' if isinstance(e, shutil.Error) else 'OSError', e.errno]
+            raise
+        except _KbdAtPrompt:
+            rec[2] = ['err', 'KeyboardInterrupt', None]
             raise
         except (Crash, Looping, KeyboardInterrupt):
             rec[2] = ['crash']
@@ -512,6 +520,10 @@ class Shim:
         builtins.open = bopen
 
         os.getuid = lambda: S.uid
+        if S.step.get('users') is not None:
+            # the password database as --all-users sees it: [[name, uid, home], ...]
+            import pwd
+            pwd.getpwall = lambda: [pwd.struct_passwd((n, 'x', u, u, '', h, '/bin/sh')) for n, u, h in S.step['users']]
 
         def isatty(fd):
             if fd == 0:
@@ -523,7 +535,12 @@ class Shim:
             orig_input = mi._my_input
 
             def rec_input(prompt=''):
-                return S.lib('input', [prompt], lambda: orig_input(prompt))
+                def real():
+                    S._ninput = getattr(S, '_ninput', 0) + 1
+                    if S.step.get('interrupt_input') == S._ninput:      # ^C typed at the n-th prompt
+                        raise _KbdAtPrompt()
+                    return orig_input(prompt)
+                return S.lib('input', [prompt], real)
             mi._my_input = rec_input
         except Exception:
             pass
@@ -751,7 +768,7 @@ def _child(root, scn, step, resfile, outf, errf):
         code = None
         shim.trace = shim.trace[:200]
     except BaseException as e:     # what the interpreter would do: traceback, exit status 1
-        exc = type(e).__name__
+        exc = 'KeyboardInterrupt' if isinstance(e, KeyboardInterrupt) else type(e).__name__
         tb = traceback.format_exc()
         try:
             err.write('Traceback (most recent call last): ' + exc + ': ' + str(e) + '\n')
@@ -840,7 +857,11 @@ def execute(scn, snap_each=True, keep=False):
         build_tree(root, scn.get('tree') or [])
         for m in scn.get('mounts') or []:
             os.makedirs(_real(root, m), exist_ok=True)
-        os.makedirs(os.fsencode(_real(root, scn.get('cwd', '/'))), exist_ok=True)
+        try:
+            if not os.path.lexists(os.fsencode(_real(root, scn.get('cwd', '/')))):
+                os.makedirs(os.fsencode(_real(root, scn.get('cwd', '/'))), exist_ok=True)
+        except OSError:
+            pass                          # the working directory is reached through a symbolic link of the tree: it exists inside the root
         before = snapshot(root)
         outs = []
         for step in scn['steps']:
@@ -920,7 +941,11 @@ def execute_concurrent(scn, steps, schedule, timeout=20):
         build_tree(root, scn.get('tree') or [])
         for m in scn.get('mounts') or []:
             os.makedirs(_real(root, m), exist_ok=True)
-        os.makedirs(os.fsencode(_real(root, scn.get('cwd', '/'))), exist_ok=True)
+        try:
+            if not os.path.lexists(os.fsencode(_real(root, scn.get('cwd', '/')))):
+                os.makedirs(os.fsencode(_real(root, scn.get('cwd', '/'))), exist_ok=True)
+        except OSError:
+            pass                          # the working directory is reached through a symbolic link of the tree: it exists inside the root
         before = snapshot(root)
         procs = []
         for i, step in enumerate(steps):
